@@ -20,7 +20,7 @@ OLD = {"n": 9, "tag": 91}
 NEW = {"n": 21, "tag": 92}
 BY1 = {"n": 4, "tag": 93}
 BY2 = {"n": 13, "tag": 94}
-TARGET = "target-key"
+TARGET = "target-ключ-é"
 
 OPS = ["write", "write_existing_content", "write_hash", "writer_session", "writer_session_mmap", "read", "read_hash", "stream", "copy", "copy_hash", "hard_link", "metadata", "list",
        "remove", "remove_hash", "remove_fully", "clear", "exists"]
@@ -218,7 +218,7 @@ def worker(ctx, job):
         replay = {"engine": "fsx", "mode": "fault", "scenario": sc, "faults": []}
         if rep["status"] != "ok" or not out or "ok" not in out[-1]:
             V.violation(res, "fault:%s/%s:clean-run-%s" % (op, flavour, classify(out[-1]) if out else rep["status"]), "fault-free run failed: %r" % (out[-1:] or rep.get("error")), replay)
-        res["probe"] = {"sc": sc, "steps": [{"sys": s["sys"], "len": s["len"], "flags": s["flags"]} for s in rep["steps"] if s.get("step") is not None],
+        res["probe"] = {"sc": sc, "steps": [{"sys": s["sys"], "len": s["len"], "flags": s["flags"], "index": "/index-v5/" in (s.get("fd_path") or "")} for s in rep["steps"] if s.get("step") is not None],
                         "trace": fsx.sys_trace(rep, [cache, destdir])}
         return res
 
@@ -317,13 +317,16 @@ def fault_sets(steps, pairs):
         for e in fsx.applicable_errnos(s):
             singles.append({"step": i, "errno": e, "sysname": s["sys"]})
         if s["sys"] in ("write", "pwrite64") and s["len"] > 1:
-            for t in fsx.short_lengths(s["len"]):
+            # the append of an index record: every byte length (cuts inside multi-byte characters included)
+            lens = range(1, s["len"]) if (s.get("index") and s["len"] <= 600) else fsx.short_lengths(s["len"])
+            for t in lens:
                 singles.append({"step": i, "short": t, "then_errno": fsx.EIO, "sysname": s["sys"]})
     out = [[f] for f in singles]
     if pairs:
         for a in singles:
             for b in singles:
-                if b["step"] > a["step"] and a.get("errno") in (fsx.EIO, fsx.ENOSPC, None) and b.get("errno") in (fsx.EIO, fsx.ENOSPC, None):
+                if b["step"] > a["step"] and a.get("errno") in (fsx.EIO, fsx.ENOSPC, None) and b.get("errno") in (fsx.EIO, fsx.ENOSPC, None) \
+                        and a.get("short", 1) in (1, None) and (b.get("short") is None or b["short"] in fsx.short_lengths(10 ** 9) or b["short"] == 1):
                     out.append([a, b])
     return out
 
